@@ -421,6 +421,11 @@ async fn wait_switch_committed(sh: &Arc<Shared>) {
 }
 
 async fn deliver_logged(world: &Arc<World>, topo: &Topo, proxy: usize, stage: u64) -> String {
+    if stage == 3 {
+        // the commit of this proxy happens between this event and the `commit` event below
+        let seq = world.next_seq();
+        world.log(seq, json!({"t": "commit0", "seq": seq, "proxy": PROXY_NAME[proxy], "epoch": stage}));
+    }
     let reply = deliver(world, topo, proxy, stage).await;
     let seq = world.next_seq();
     let t = if stage == 3 { "commit" } else { "epoch" };
